@@ -19,7 +19,13 @@
           two distinct tiny ordinates underflows to 0);
      F50  a ring may only be matched under rotation when its closing vertex equals its first
           vertex in every ordinate (IsClosed looks at X and Y only; the rotation index map never
-          reads the closing vertex of the second ring). *)
+          reads the closing vertex of the second ring);
+     F52  the tolerance test compares distance and tolerance after scaling both by one power of
+          two, so that the squares neither overflow (values above about 1e154: every pair of
+          points used to be "within" such a tolerance) nor underflow (below about 1e-162: the
+          squared tolerance was 0 and the comparison became exact); "no tolerance" is
+          tolerance == 0, not squared tolerance == 0.  The model's arithmetic is exact (Q), so
+          xy_eq_bits is the statement d^2 <= e^2 itself at every magnitude. *)
 From Coq Require Import NArith ZArith QArith List Bool Lia Permutation.
 From SF Require Import Base.GeomAST Base.Bytes Base.Outcome Model.WKB.
 Import ListNotations.
@@ -236,7 +242,8 @@ Definition ext_sub (a b : ext) : ext :=
   | EFin _, EInf s => EInf (negb s)
   | EFin p, EFin q => EFin (p - q)
   end.
-(* asb.lengthSq() > c.toleranceSq, with toleranceSq = t*t for a finite t *)
+(* alg_exact_equals.go:exceedsTolerance  dx*dx+dy*dy > tol*tol (after the exact rescaling of
+   dx, dy, tol by a common power of two), for a finite tolerance t *)
 Definition len_sq_gt (dx dy : ext) (t : Q) : bool :=
   match dx, dy with
   | ENaN, _ | _, ENaN => false           (* NaN > x is false *)
@@ -248,13 +255,13 @@ Definition len_sq_gt (dx dy : ext) (t : Q) : bool :=
    (0 when the option is absent).  Exact arithmetic: agrees with the float64 code wherever the
    subtraction, the squares and their sum are exact or far from the threshold. *)
 Definition xy_eq_bits (tol : N) (a b : vtx N) : bool :=
-  if is_zero_bits tol then xy_exact feq_bits a b     (* toleranceSq == 0: a.XY != b.XY *)
+  if is_zero_bits tol then xy_exact feq_bits a b     (* c.tolerance == 0: a.XY != b.XY *)
   else
     match ext_of_bits tol with
     | EFin t =>
         negb (len_sq_gt (ext_sub (ext_of_bits (vx a)) (ext_of_bits (vx b)))
                         (ext_sub (ext_of_bits (vy a)) (ext_of_bits (vy b))) t)
-    | _ => true   (* toleranceSq is +Inf or NaN: nothing is greater *)
+    | _ => true   (* the tolerance is +-Inf or NaN: nothing is greater *)
     end.
 
 (* ExactEquals(g, h, opts...) on bit patterns *)
